@@ -1,0 +1,51 @@
+//go:build verif
+
+// Contracts for the deductive verifier in /verif (gocv). Comment-only file.
+
+package oracle
+
+// A timestamp is physical*2^18 + logical with 0 <= logical < 2^18 (physicalShiftBits = 18).
+// inRangePL: the parts PD hands out (physical milliseconds below 2^45, logical below 2^18) - for these the
+// composition does not overflow.
+//@ spec func inRangePL(p int64, l int64) bool { return 0 <= p && p < 35184372088832 && 0 <= l && l < 262144 }
+//@ spec func tsOf(p int64, l int64) uint64 { return mathint(p)*262144 + mathint(l) }
+
+// issued(ts): ts was handed out by PD (ghost predicate; produced only by the assumed contracts of the PD client).
+//@ spec func issued(ts uint64) bool
+
+//@ func ComposeTS
+//@   prop C13
+//@   replay: auto
+//@   requires inRangePL(physical, logical)
+//@   ensures result == tsOf(physical, logical)
+
+//@ func ExtractPhysical
+//@   prop C13
+//@   replay: auto
+//@   ensures mathint(result) == mathint(ts) / 262144
+
+//@ func ExtractLogical
+//@   prop C13
+//@   replay: auto
+//@   ensures mathint(result) == mathint(ts) % 262144
+
+// Composition is invertible and strictly monotone in (physical, logical) lexicographically; the physical part is monotone.
+//@ lemma composeExtract(p int64, l int64)
+//@   prop C13
+//@   requires inRangePL(p, l)
+//@   ensures mathint(tsOf(p, l)) / 262144 == mathint(p)
+//@   ensures mathint(tsOf(p, l)) % 262144 == mathint(l)
+
+//@ lemma composeMonotone(p1 int64, l1 int64, p2 int64, l2 int64)
+//@   prop C13
+//@   requires inRangePL(p1, l1) && inRangePL(p2, l2)
+//@   ensures (p1 < p2 || (p1 == p2 && l1 < l2)) == (tsOf(p1, l1) < tsOf(p2, l2))
+
+//@ lemma physicalMonotone(a uint64, b uint64)
+//@   prop C13
+//@   ensures a <= b ==> mathint(a) / 262144 <= mathint(b) / 262144
+
+// Interface contract of Oracle.GetTimestamp (checked for pdOracle in package oracles; assumed for other implementers).
+//@ func (Oracle) GetTimestamp
+//@   modifies nothing
+//@   ensures result1 == nil ==> issued(result0)
